@@ -1428,6 +1428,13 @@ func (e *Entry) Find(name string) *Entry {
 			if rm, ok := e.Node.(*Module); !ok || m != rm {
 				e = ToEntry(m)
 			}
+		} else if rm, ok := e.Node.(*Module); ok && rm.BelongsTo != nil {
+			// A name without a prefix is a name of the current module.  In
+			// a submodule that is the module it belongs to, and it is that
+			// module's tree that holds the nodes of all its submodules.
+			if m := module(rm); m != nil {
+				e = ToEntry(m)
+			}
 		}
 	}
 
